@@ -144,6 +144,17 @@ pub fn profile_for(prop: &str, cancelable: bool, rng: &mut Rng) -> Profile {
             w.root = 12;
             pf.threads = (2, 5);
         }
+        "C09" => {
+            w.cancel = if cancelable { 5 } else { 2 };
+            w.child_multi = 5;
+            w.addprops = 7;
+            w.addevent = 6;
+            w.exit = 2;
+            w.pushset = 3;
+            pf.threads = (1, 3);
+            pf.p_unsampled = 40;
+            pf.p_roots_last = 700;
+        }
         "C10" => {
             pf.probe_scopes = true;
             w.guard = 14;
